@@ -115,6 +115,27 @@ CLAIMED['C09'] = (
     'flag words vary over 4 free bits per shard (the subset is picked by a symbolic index: fork-exhaustive); 64-bit '
     'OpenVPN ids vary in their low two bytes or their top byte; the reference encoders are trusted', '5 C09')
 
+CLAIMED['C07'] = (
+    'against an encoder written from RFC 4251/4253/4419/8709 and PROTOCOL.certkeys (symcheck/refs/ssh_ref.py): the '
+    'padding rule for every payload length 5..35005 (symbolic key bytes), the binary packet layout, name-lists with '
+    'known and unknown names (order, unknown names, uint32 prefix), KEXINIT field order / first_kex_packet_follows / '
+    'reserved, DH / GEX / DISCONNECT / UNIMPLEMENTED messages with full-width 32-bit fields, ssh-rsa / ssh-dss / '
+    'ssh-ed25519 public key blobs (mpints as canonical two-complement), v01 certificates (serial, type, validity, key '
+    'id, principals, nonce, critical options, extensions in order), the identification string: parse(ref(fields)) has '
+    'the fields and composes back to ref(fields); constructed objects compose to ref(fields)',
+    'S-key: PublicKey replaced by a parameter container (checked natively against the real PublicKey on 50 keys); '
+    'S-dt integer instants for certificate validity; RSA n < 2^32 (quick) / 2^64 (thorough), DSS parameters < 2^24, '
+    'unknown names of 1 symbolic character; ECDSA and X.509 host keys only through seed windows (C01/C02)', '5 C07')
+CLAIMED['C16'] = (
+    'S-hash: with MD5 / hash_bytes replaced by recording stubs the solver decides that HASSH and HASSH-server feed the '
+    'digest exactly kex;enc;mac;comp joined from the message lists for KEXINITs whose hashed lists (alone and in '
+    'client/server pairs) are [], [x] or [x, known] with x known or an unknown 1-character name, and that the three key '
+    'fingerprints are taken over exactly the RFC 4253 blob of the reference for ssh-rsa, ssh-dss, ssh-ed25519 keys and '
+    'v01 certificates; the rendering (hash name, colon, base64 / colon-hex) with a symbolic digest byte, and natively '
+    'for every (position, value); real hashlib on concrete inputs ties the stubs to reality',
+    'the digests themselves are uninterpreted (S-hash); known_hosts base64 is decided on concrete blobs only (base64 of '
+    'a symbolic blob is realised value by value); that parsing delivers the wire names in wire order is C07', '5 C16')
+
 NOT_APPLICABLE = {
     'C19': 'asymptotic claim (work linear in input size for n, 2n, 4n, ...): a bounded symbolic execution fixes the '
            'input size, so a pass says nothing about growth; the total-work bound needs an amortised argument over '
